@@ -369,6 +369,15 @@ def run(repo, chk):
     chk.rule('C01.X1', 'statements are generated iff reachable: the exit-mode analysis never drops code that can run (shared with C16.E1/E2/E3)')
     c16.run(repo, Remap(chk, {'C16.E1': 'C01.X1', 'C16.E2': 'C01.X1', 'C16.E3': 'C01.X1'}))
     c02.run(repo, Remap(chk, {'C02.T6': 'C01.E1'}))
+    if chk.__class__.__name__ == 'Check':
+        # what a program prints also depends on its constants reaching the output unchanged and on the write family doing
+        # what the language says (shared with C13.B0-B3 and C17.D1-D7); C07 / C11 / C12 (typing, grouping, literal values)
+        # are not repeated here
+        chk.rule('C01.O1', 'output path: constant data reaches the assembly byte for byte (shared with C13.B0-B3); the write family '
+                           'dispatches and prints as documented (shared with C17.D1-D7)')
+        from . import c13, c17
+        c13.run(repo, Remap(chk, {'C13.B0': 'C01.O1', 'C13.B1': 'C01.O1', 'C13.B2': 'C01.O1', 'C13.B3': 'C01.O1'}))
+        c17.run(repo, Remap(chk, {f'C17.D{k}': 'C01.O1' for k in range(1, 8)}))
     for fname, want in (('array_lookup', ['src_expr', 'idx_expr']), ('array_assignment', ['src_expr', 'idx_expr', 'rhs_expr'])):
         bad = None
         n = 0
